@@ -188,17 +188,7 @@ func ruleBuildCleanup(w *World, r *Report, rule string) {
 	fi := ro.doBuild
 	r.Analysed(fi)
 	info := fi.Pkg.TypesInfo
-	var pObj types.Object
-	ast.Inspect(fi.Decl.Body, func(n ast.Node) bool {
-		if as, ok := n.(*ast.AssignStmt); ok && len(as.Lhs) == 1 && len(as.Rhs) == 1 {
-			if l := litOf(as.Rhs[0]); l != nil {
-				if tv, ok := info.Types[l]; ok && isNamedType(tv.Type, modPath, "provider") {
-					pObj = objOf(info, as.Lhs[0])
-				}
-			}
-		}
-		return true
-	})
+	_, pObj := providerAllocNode(w, ro, w.FlowOf(fi))
 	if pObj == nil {
 		r.Undecided(rule, fi.Name()+"#provider-var", fi.Decl.Pos(), "provider allocation not bound to a variable")
 		return
@@ -262,10 +252,18 @@ func ruleFanOut(w *World, r *Report, rule string) {
 		}
 		info := fi.Pkg.TypesInfo
 		ast.Inspect(fi.Decl.Body, func(x ast.Node) bool {
-			rs, ok := x.(*ast.RangeStmt)
-			if !ok {
+			st, isStmt := x.(ast.Stmt)
+			if !isStmt {
 				return true
 			}
+			il := asIterLoop(info, st)
+			if il == nil {
+				return true
+			}
+			rs := struct {
+				X    ast.Expr
+				Body *ast.BlockStmt
+			}{il.Coll, il.Body}
 			var set *ast.CallExpr
 			for _, c := range callsIn(rs.Body, false) {
 				if callee(info, c) == ro.setInstance.Obj {
@@ -315,7 +313,7 @@ func ruleFanOut(w *World, r *Report, rule string) {
 				}
 			}
 			if bad == 0 {
-				r.OK(rule, fmt.Sprintf("%s#fan-out(%s)", fi.Name(), exprStr(rs.X)), rs.Pos(), true, "the loop hands every one of the %s to setInstance (no exit, no skip)", fam)
+				r.OK(rule, fmt.Sprintf("%s#fan-out(%s)", fi.Name(), exprStr(rs.X)), il.Stmt.Pos(), true, "the loop hands every one of the %s to setInstance (no exit, no skip)", fam)
 			}
 			return true
 		})
@@ -353,16 +351,21 @@ func ruleFanOut(w *World, r *Report, rule string) {
 	}
 }
 
-// storingFuncs: setInstance and the private helpers of createInstance that call it.
+// storingFuncs: setInstance and the private helpers of createInstance that reach it.
 func storingFuncs(w *World, ro *roles) map[*types.Func]bool {
 	out := map[*types.Func]bool{ro.setInstance.Obj: true}
-	for fi := range w.HelperClosure(map[*FuncInfo]string{ro.createInstance: "createInstance"}) {
-		if fi == ro.createInstance {
-			continue
-		}
-		for _, c := range callsIn(fi.Decl.Body, true) {
-			if callee(fi.Pkg.TypesInfo, c) == ro.setInstance.Obj {
-				out[fi.Obj] = true
+	helpers := w.HelperClosure(map[*FuncInfo]string{ro.createInstance: "createInstance"})
+	for changed := true; changed; {
+		changed = false
+		for fi := range helpers {
+			if fi == ro.createInstance || out[fi.Obj] {
+				continue
+			}
+			for _, c := range callsIn(fi.Decl.Body, true) {
+				if cal := callee(fi.Pkg.TypesInfo, c); cal != nil && out[cal] {
+					out[fi.Obj] = true
+					changed = true
+				}
 			}
 		}
 	}
@@ -372,51 +375,68 @@ func storingFuncs(w *World, ro *roles) map[*types.Func]bool {
 // ruleCreateStores: R02.3 - every success exit of createInstance has passed setInstance.
 func ruleCreateStores(w *World, r *Report, rule string) {
 	ro := resolveRoles(w)
-	fi := ro.createInstance
-	r.Analysed(fi)
-	info := fi.Pkg.TypesInfo
-	fl := w.FlowOf(fi)
-	// a fan-out loop counts as a store once it has been passed (it may run zero
-	// times only if there are no outputs, which the surrounding checks exclude)
-	loopStores := map[ast.Stmt]bool{}
-	ast.Inspect(fi.Decl.Body, func(x ast.Node) bool {
-		if rs, ok := x.(*ast.RangeStmt); ok {
-			for _, c := range callsIn(rs.Body, false) {
-				if callee(info, c) == ro.setInstance.Obj {
-					loopStores[rs] = true
+	storing := storingFuncs(w, ro)
+	helpers := w.HelperClosure(map[*FuncInfo]string{ro.createInstance: "createInstance"})
+	var fis []*FuncInfo
+	for fi := range helpers {
+		sig := fi.Obj.Type().(*types.Signature)
+		if fi == ro.createInstance || (storing[fi.Obj] && fi != ro.setInstance && sig.Results().Len() == 2 && isErrorType(sig.Results().At(1).Type())) {
+			fis = append(fis, fi)
+		}
+	}
+	sort.Slice(fis, func(i, j int) bool { return fis[i].Decl.Pos() < fis[j].Decl.Pos() })
+	n := 0
+	for _, fi := range fis {
+		r.Analysed(fi)
+		info := fi.Pkg.TypesInfo
+		fl := w.FlowOf(fi)
+		// a fan-out loop counts as a store once it has been passed
+		loopStores := map[ast.Stmt]bool{}
+		for _, il := range iterLoopsIn(info, fi.Decl.Body) {
+			for _, c := range callsIn(il.Body, false) {
+				if cal := callee(info, c); cal != nil && storing[cal] {
+					loopStores[il.Stmt] = true
 				}
 			}
 		}
-		return true
-	})
-	storing := storingFuncs(w, ro)
-	sol := fl.Solve(Spec{Must: true,
-		Node: func(n ast.Node, in Facts) (gen, kill []string) {
-			for _, c := range callsIn(n, false) {
-				if cal := callee(info, c); cal != nil && storing[cal] {
+		sol := fl.Solve(Spec{Must: true,
+			Node: func(nd ast.Node, in Facts) (gen, kill []string) {
+				for _, c := range callsIn(nd, false) {
+					if cal := callee(info, c); cal != nil && storing[cal] {
+						gen = append(gen, "stored")
+					}
+				}
+				return
+			},
+			Edge: func(b *cfg.Block, i int, cond ast.Expr, in Facts) (gen, kill []string) {
+				if (b.Kind == cfg.KindRangeLoop || b.Kind == cfg.KindForLoop) && i == 1 && loopStores[b.Stmt] {
 					gen = append(gen, "stored")
 				}
+				return
+			}})
+		for _, ex := range fl.Exits() {
+			if ex.Ret == nil {
+				continue
 			}
-			return
-		},
-		Edge: func(b *cfg.Block, i int, cond ast.Expr, in Facts) (gen, kill []string) {
-			if b.Kind == cfg.KindRangeLoop && i == 1 && loopStores[b.Stmt] {
-				gen = append(gen, "stored")
+			if len(ex.Ret.Results) == 1 {
+				// return helper(...): delegated to a storing helper, which is checked itself
+				if c, ok := unparen(ex.Ret.Results[0]).(*ast.CallExpr); ok {
+					if cal := callee(info, c); cal != nil && storing[cal] && cal != ro.setInstance.Obj {
+						continue
+					}
+				}
 			}
-			return
-		}})
-	n := 0
-	for _, ex := range fl.Exits() {
-		if ex.Ret == nil || len(ex.Ret.Results) != 2 || !isNilIdent(info, ex.Ret.Results[1]) {
-			continue
+			if len(ex.Ret.Results) != 2 || !isNilIdent(info, ex.Ret.Results[1]) {
+				continue
+			}
+			n++
+			con := fmt.Sprintf("%s#success-exit/%d", fi.Name(), n)
+			r.Check(sol.AtExit(ex).Has("stored"), rule, con, ex.Pos, true,
+				"the instance returned here has been handed to setInstance (cached per lifetime, tracked for disposal) on every path",
+				fi.Name()+" returns an instance without passing through setInstance: it is neither cached nor tracked for disposal")
 		}
-		n++
-		con := fmt.Sprintf("%s#success-exit/%d", fi.Name(), n)
-		r.Check(sol.AtExit(ex).Has("stored"), rule, con, ex.Pos, true,
-			"the instance returned here has been handed to setInstance (cached per lifetime, tracked for disposal) on every path",
-			"createInstance returns an instance without passing through setInstance: it is neither cached nor tracked for disposal")
 	}
 	if n < 5 {
-		r.Fail(rule, fi.Name()+"#success-exits", fi.Decl.Pos(), "expected at least 5 success exits (instance value, initializer, result object, multi-return, plain), found %d", n)
+		r.Fail(rule, ro.createInstance.Name()+"#success-exits", ro.createInstance.Decl.Pos(), "expected at least 5 success exits (instance value, initializer, result object, multi-return, plain), found %d", n)
 	}
 }
